@@ -14,6 +14,9 @@ from typing import Dict, List, Optional, Tuple
 PKG = "ascmhl"
 
 
+MEMO_DECORATORS = {"functools.lru_cache", "functools.cache", "lru_cache", "cache", "functools.cached_property", "cached_property"}
+
+
 class AnalysisError(Exception):
     """The checker cannot interpret the code (anchor vanished, idiom outside the enumerated set)."""
 
@@ -91,6 +94,8 @@ class Func:
         self.is_static = any(d.endswith("staticmethod") for d in self.decorators)
         self.is_classmethod = any(d.endswith("classmethod") for d in self.decorators)
         self.is_property = any(d == "property" for d in self.decorators)
+        # memoising decorators keep the call target (call graph unchanged) but serve repeated calls from a cache
+        self.memoised = any(d.split("(")[0] in MEMO_DECORATORS for d in self.decorators)
 
     @property
     def rel(self):
@@ -1071,6 +1076,8 @@ class Program:
         allowed_deco_prefix = ("click.", "classmethod", "staticmethod", "abstractmethod", "property", "unique")
         for q, f in self.funcs.items():
             for d in f.decorators:
+                if d.split("(")[0] in MEMO_DECORATORS:
+                    continue  # transparent for call resolution; rules that care consult Func.memoised
                 if d.startswith(allowed_deco_prefix) or ".result_callback" in d or ".resultcallback" in d or ".command" in d or ".group" in d:
                     continue
                 bad.append(f"{f.loc()}: decorator {d} on {q}")
